@@ -406,7 +406,7 @@ func knownAtEdge(pred, succ *ssa.BasicBlock) []Guard {
 // computed once (sync.Once); if the first read failed transiently and a later one succeeded, every lookup would succeed
 // with slides that were never computed.
 func checkStickyLoadFailure(p *Prog, r *Report, rule string) {
-	var loader *ssa.Function
+	var loaders []*ssa.Function
 	var errG *ssa.Global
 	for _, f := range p.FuncsIn(uxPkg) {
 		if isPkgInit(f) {
@@ -422,11 +422,13 @@ func checkStickyLoadFailure(p *Prog, r *Report, rule string) {
 				return
 			}
 			if strings.Contains(g.Type().String(), "gosym.Table") && !isNilConst(st.Val) {
-				loader = f
+				if len(loaders) == 0 || loaders[len(loaders)-1] != f {
+					loaders = append(loaders, f)
+				}
 			}
 		})
 	}
-	if loader == nil {
+	if len(loaders) == 0 {
 		r.Und(rule, "symbol table loader", "", "no function of unexports2 stores a *gosym.Table into a package-level variable")
 		return
 	}
@@ -454,46 +456,49 @@ func checkStickyLoadFailure(p *Prog, r *Report, rule string) {
 		}
 	}
 	if errG == nil {
-		r.Bad(rule, "load failure is remembered", p.Pos(loader.Pos()), "package unexports2 has no package-level error variable: a failed symbol-table read cannot be remembered")
+		r.Bad(rule, "load failure is remembered", p.Pos(loaders[0].Pos()), "package unexports2 has no package-level error variable: a failed symbol-table read cannot be remembered")
 		return
 	}
 	n := 0
-	eachInstr(loader, func(i ssa.Instruction) {
-		cl, ok := i.(*ssa.Call)
-		if !ok {
-			return
-		}
-		cal := staticCallee(cl.Common())
-		if cal == nil || cal == loader || relPkg(cal) != uxPkg || cal.Signature.Results().Len() != 2 || !strings.Contains(cal.Signature.Results().At(0).Type().String(), "gosym.Table") {
-			return
-		}
-		n++
-		isErrOf := func(v ssa.Value) bool {
-			for _, a := range origins(v) {
-				if ex, ok := a.V.(*ssa.Extract); ok && ex.Tuple == ssa.Value(cl) && ex.Index == 1 {
-					return true
-				}
-			}
-			return false
-		}
-		isRecord := func(j ssa.Instruction) bool {
-			st, ok := j.(*ssa.Store)
+	for _, loader := range loaders {
+		eachInstr(loader, func(i ssa.Instruction) {
+			cl, ok := i.(*ssa.Call)
 			if !ok {
+				return
+			}
+			cal := staticCallee(cl.Common())
+			if cal == nil || cal == loader || relPkg(cal) != uxPkg || cal.Signature.Results().Len() != 2 || !strings.Contains(cal.Signature.Results().At(0).Type().String(), "gosym.Table") {
+				return
+			}
+			n++
+			isErrOf := func(v ssa.Value) bool {
+				for _, a := range origins(v) {
+					if ex, ok := a.V.(*ssa.Extract); ok && ex.Tuple == ssa.Value(cl) && ex.Index == 1 {
+						return true
+					}
+				}
 				return false
 			}
-			g, isG := st.Addr.(*ssa.Global)
-			return isG && errGs[g] && isErrOf(st.Val)
-		}
-		for _, ret := range returnsOf(loader) {
-			if !reachableAfter(cl, ret) || errNilGuarded(ret.Block(), cl) {
-				continue
+			isRecord := func(j ssa.Instruction) bool {
+				st, ok := j.(*ssa.Store)
+				if !ok {
+					return false
+				}
+				g, isG := st.Addr.(*ssa.Global)
+				return isG && errGs[g] && isErrOf(st.Val)
 			}
-			r.Check(passedBefore(loader, ret, isRecord, nil), rule, "reader failure recorded before return in "+shortName(loader), p.Pos(posOf(ret)), "error cache stored on every failing way out",
-				"the symbol-table loader can return the reader's error without recording it: the next lookup reads the file again, and if that succeeds after the one-time slide computation already ran (and failed), every by-name lookup succeeds with slides that were never computed")
-		}
-	})
+			for _, ret := range returnsOf(loader) {
+				if !reachableAfter(cl, ret) || errNilGuarded(ret.Block(), cl) {
+					continue
+				}
+				// every way from the reader call to this return records the error
+				r.Check(!reachableAvoiding(cl, ret, isRecord), rule, "reader failure recorded before return in "+shortName(loader), p.Pos(posOf(ret)), "error cache stored on every failing way out",
+					"the symbol-table loader can return the reader's error without recording it: the next lookup reads the file again, and if that succeeds after the one-time slide computation already ran (and failed), every by-name lookup succeeds with slides that were never computed")
+			}
+		})
+	}
 	if n == 0 {
-		r.Und(rule, "reader call in "+shortName(loader), p.Pos(loader.Pos()), "the loader does not call a reader returning (*gosym.Table, error)")
+		r.Und(rule, "reader call in "+shortName(loaders[0]), p.Pos(loaders[0].Pos()), "the loader does not call a reader returning (*gosym.Table, error)")
 	}
 }
 
@@ -585,6 +590,11 @@ func checkExactSymbolMatch(p *Prog, r *Report, rule string) int {
 						}
 					}
 				}
+				// a name index: the element of a map, looked up under the requested name, every entry of which was filed
+				// under the Name of the very symbol it points to
+				if lk, isLk := resolveLocal(v).(*ssa.Lookup); isLk && !lk.CommaOk && isReqName(resolveLocal(lk.Index)) && isNameIndex(p, lk.X) {
+					ok = true
+				}
 				gs := guardsAt(ret.Block())
 				if preds != nil {
 					gs = knownAtEdge(preds[vi], ret.Block())
@@ -629,4 +639,77 @@ func sameAddrValue(a, b ssa.Value, k *Keyer) bool {
 	}
 	ka, kb := k.Key(ia.X), k.Key(ib.X)
 	return ka == kb && !strings.HasPrefix(ka, "#") && !strings.HasPrefix(ka, "$")
+}
+
+// isNameIndex: m is a map kept in a struct field, and every update of a map in that field, anywhere in the module, files
+// the address of a symbol under that same symbol's Name; the field itself only ever receives freshly made maps.
+func isNameIndex(p *Prog, m ssa.Value) bool {
+	_, fv, ok := fieldRef(resolveLocal(m))
+	if !ok || fv == nil {
+		return false
+	}
+	if _, isMap := fv.Type().Underlying().(*types.Map); !isMap {
+		return false
+	}
+	nUpd := 0
+	good := true
+	for _, f := range p.Funcs {
+		if !strings.HasPrefix(pkgPathOf(f), Mod) || f.Blocks == nil {
+			continue
+		}
+		k := NewKeyer(f)
+		eachInstr(f, func(i ssa.Instruction) {
+			switch x := i.(type) {
+			case *ssa.MapUpdate:
+				if _, ufv, ok := fieldRef(resolveLocal(x.Map)); !ok || ufv != fv {
+					return
+				}
+				nUpd++
+				b, nfv, okF := fieldRef(resolveLocal(x.Key))
+				if !okF || nfv == nil || nfv.Name() != "Name" || !sameAddrValue(b, x.Value, k) {
+					good = false
+				}
+			case *ssa.Store:
+				if fa, ok := x.Addr.(*ssa.FieldAddr); ok && fieldVar(fa.X.Type(), fa.Field) == fv {
+					if _, fresh := resolveLocal(x.Val).(*ssa.MakeMap); !fresh {
+						good = false
+					}
+				}
+			}
+		})
+	}
+	return good && nUpd > 0
+}
+
+// reachableAvoiding: some path leads from just after instruction from to instruction to without executing an instruction
+// for which avoid holds.
+func reachableAvoiding(from, to ssa.Instruction, avoid func(ssa.Instruction) bool) bool {
+	seen := map[*ssa.BasicBlock]bool{}
+	var scan func(b *ssa.BasicBlock, start int) bool
+	scan = func(b *ssa.BasicBlock, start int) bool {
+		for _, i := range b.Instrs[start:] {
+			if i == to {
+				return true
+			}
+			if avoid(i) {
+				return false
+			}
+		}
+		for _, s := range b.Succs {
+			if !seen[s] {
+				seen[s] = true
+				if scan(s, 0) {
+					return true
+				}
+			}
+		}
+		return false
+	}
+	b := from.Block()
+	for k, i := range b.Instrs {
+		if i == from {
+			return scan(b, k+1)
+		}
+	}
+	return false
 }
